@@ -117,6 +117,8 @@ def rule_orient(ctx: Ctx) -> List[Ob]:
     from ..flow import Expander
     ex = Expander(ctx, f)
     it = ex.expand_at(lp.iter, lp.iter)
+    while isinstance(it, ast.Call) and dotted(it.func) in ("tuple", "list", "iter") and len(it.args) == 1:
+        it = it.args[0]      # a materialised zip is iterated in the same order
     need(isinstance(it, ast.Call) and dotted(it.func) == "zip" and len(it.args) == 2 and isinstance(lp.target, ast.Tuple),
          "initialize_X_and_G: refill loop is not `for x, g in zip(<points>, <gradients>)` -- decoder cannot be typed")
     tys = []
